@@ -250,6 +250,10 @@ func vRunAdapters(bh *vABehaviour) (out vAOut) {
 					wpos += st.N
 					var n int
 					n, err = iow.Write(p)
+					// io.Writer: "Write must not retain p" - the caller reuses its buffer right away
+					for k := range p {
+						p[k] = 0xEE
+					}
 					if err == nil && n != st.N {
 						f = fmt.Sprintf("io.Writer returned %d, nil for %d bytes", n, st.N)
 						return
